@@ -96,7 +96,14 @@ public:
 		else
 		{
 			auto& ref = std::get<T>(mTuple);
-			return mLast == &ref && ref == value;
+			if constexpr (std::is_floating_point_v<T>)
+			{
+				// NaN key must be equal to itself (the current key is passed back when keys are visited, otherwise it will never be found)
+				return mLast == &ref && (ref == value || (ref != ref && value != value));
+			}
+			else {
+				return mLast == &ref && ref == value;
+			}
 		}
 	}
 
